@@ -1065,7 +1065,62 @@ func callerMasks(c *Config, pk, name string, idx int) (ks []int64, all bool) {
 	return ks, all
 }
 
+// requestedModeOnly: v is the caller's own mode parameter, possibly masked with a constant.
+func requestedModeOnly(v ssa.Value, d int) bool {
+	if d > 4 {
+		return false
+	}
+	switch x := strip(v).(type) {
+	case *ssa.Parameter:
+		return true
+	case *ssa.BinOp:
+		if x.Op != token.AND {
+			return false
+		}
+		if _, isC := constInt(x.Y); isC {
+			return requestedModeOnly(x.X, d+1)
+		}
+		if _, isC := constInt(x.X); isC {
+			return requestedModeOnly(x.Y, d+1)
+		}
+	}
+	return false
+}
+
+// c05ModeArgs: what the callers of setMode hand over is the mode they were asked for, nothing or-ed in.
+func c05ModeArgs(rc *RuleCtx) {
+	for _, pk := range []string{"memfs", "orefafs"} {
+		for _, g := range rc.C.srcFuncs(pk) {
+			if rc.C.inlinedAway(g) || g.Synthetic != "" {
+				continue
+			}
+			k := 0
+			eachCall(g, func(ci ssa.CallInstruction) {
+				fn := calleeFunc(ci)
+				if fn == nil || nm(fn) != "setMode" {
+					return
+				}
+				args := ci.Common().Args
+				if !ci.Common().IsInvoke() {
+					args = args[1:]
+				}
+				if len(args) == 0 {
+					return
+				}
+				k++
+				cons := fmt.Sprintf("%s hands setMode the requested mode#%d", funcName(g), k)
+				if requestedModeOnly(args[0], 0) {
+					rc.good(cons, ci.Pos(), "the mode parameter of the caller, at most masked with a constant")
+				} else {
+					rc.bad(cons, ci.Pos(), "the mode handed to setMode is not the caller's own mode parameter (at most masked): bits that were not requested (the file system's default permission bits, say) are or-ed in, so Chmod cannot clear them and a copy does not carry the source's permission bits over")
+				}
+			})
+		}
+	}
+}
+
 func c05ModeBits(rc *RuleCtx) {
+	c05ModeArgs(rc)
 	var mask int64 = -1
 	if p := rc.C.pkg("avfs"); p != nil {
 		if k, ok := p.Types.Scope().Lookup("FileModeMask").(*types.Const); ok {
